@@ -354,6 +354,7 @@ func main() {
 	fs := flag.NewFlagSet("vcheck", flag.ExitOnError)
 	tierF := fs.String("tier", os.Getenv("VERIF_TIER"), "quick|thorough")
 	replay := fs.String("replay", "", "replay file")
+	minim := fs.String("minimise", "", "minimise the scenario of this replay file (debug aid); writes <file>.min")
 	fs.Parse(os.Args[2:])
 	tier := *tierF
 	if tier == "" {
@@ -373,6 +374,32 @@ func main() {
 	defer cleanup()
 	buildS := time.Since(start).Seconds()
 
+	if *minim != "" {
+		b, err := os.ReadFile(*minim)
+		if err != nil {
+			infra("%v", err)
+		}
+		var rf struct {
+			Signature string          `json:"signature"`
+			Scenario  json.RawMessage `json:"scenario"`
+		}
+		json.Unmarshal(b, &rf)
+		var sd struct {
+			Seed uint64 `json:"seed"`
+		}
+		json.Unmarshal(rf.Scenario, &sd)
+		sc := minimise(bin, prop, tier, &Outcome{Seed: sd.Seed, Scenario: rf.Scenario}, rf.Signature)
+		out, _ := json.MarshalIndent(map[string]any{"property": prop, "tier": tier, "signature": rf.Signature, "scenario": sc}, "", " ")
+		os.WriteFile(*minim+".min", out, 0o644)
+		ro, err := replayOnce(bin, prop, *minim+".min")
+		if err == nil {
+			for _, h := range ro.History {
+				fmt.Println("  " + h)
+			}
+			fmt.Println(ro.Violations)
+		}
+		return
+	}
 	if *replay != "" {
 		o, err := replayOnce(bin, prop, *replay)
 		if err != nil {
